@@ -243,6 +243,24 @@ pub fn commd_of(seal: RegisteredSealProof, pieces: &[PieceInfo]) -> cid::Cid {
     fake_unsealed_cid(seal, pieces).unwrap()
 }
 
+/// ProveReplicaUpdates3: (sector, deadline, partition, pieces) per update
+pub fn prove_replica_updates(v: &Mvm, m: &Mn, caller: &Address, updates: Vec<(SectorNumber, u64, u64, Vec<fil_actor_miner::PieceActivationManifest>)>, require_success: bool) -> (vm_api::MessageResult, Option<Inv>) {
+    let update_proof = m.seal_proof.registered_update_proof().unwrap();
+    let params = fil_actor_miner::ProveReplicaUpdates3Params {
+        sector_proofs: updates.iter().map(|(sn, ..)| RawBytes::new(vec![*sn as u8; 4])).collect(),
+        sector_updates: updates
+            .into_iter()
+            .map(|(sn, d, p, pieces)| fil_actor_miner::SectorUpdateManifest { sector: sn, deadline: d, partition: p, new_sealed_cid: make_sealed_cid(format!("upd:{}:{}:{}", m.addr, sn, v.epoch()).as_bytes()), pieces })
+            .collect(),
+        aggregate_proof: RawBytes::default(),
+        update_proofs_type: update_proof,
+        aggregate_proof_type: None,
+        require_activation_success: require_success,
+        require_notification_success: false,
+    };
+    call(v, caller, &m.addr, &TokenAmount::zero(), MinerMethod::ProveReplicaUpdates3 as u64, Some(&params))
+}
+
 pub fn prove_commit_ni(v: &Mvm, m: &Mn, caller: &Address, sectors: &[SectorNumber], expiration: ChainEpoch, deadline: u64) -> (vm_api::MessageResult, Option<Inv>) {
     let params = ProveCommitSectorsNIParams {
         sectors: sectors
